@@ -186,7 +186,17 @@ def judge(ctx, c, answers):
             if b2 not in (None, 'CAP'):
                 ctx.violation('dfa_to_regexp-language', {'case': sub, 'word': b2, 'impl': s2})
     if la.get('ok') != spec:
-        ctx.violation('correspondence:dfa_to_regexp', {'case': sub, 'order': order, 'impl': spec, 'model': la}, no_input=bad is None)
+        # the implementation may rip the states in another order than the one read off `G.Q` (e.g. a sorted order); the theorem
+        # `toRegexp_lang` covers EVERY elimination order, so the tie only requires the result to be the model's for SOME order
+        import itertools
+        perms = list(itertools.permutations(c['D']['Q']))
+        if len(perms) > 720:
+            perms = perms[:720]
+        alt = ctx.lean.batch([{'op': 'dfa_to_regexp', 'D': c['D'], 'order': list(p)} for p in perms])
+        if any(a.get('ok') == spec for a in alt):
+            ctx.count('d2r:other-elimination-order')
+        else:
+            ctx.violation('correspondence:dfa_to_regexp', {'case': sub, 'order': order, 'impl': spec, 'model': la}, no_input=bad is None)
     if enc.canon_dfa(D) != before:
         ctx.violation('argument-mutated', {'case': sub})
     # language-level result must not depend on the order (hash seed): record a bounded language fingerprint
